@@ -111,7 +111,8 @@ func concWorkload(seed int64) string {
 	ctx, cancel := context.WithTimeout(context.Background(), 20*time.Second)
 	defer cancel()
 	// in-memory transport, or (op concu) the real UDP transport through a loopback relay
-	t, closeRelay := newTransport(send, 100*time.Millisecond)
+	// (every second connection is dialled with the defaults and configured afterwards through SetTimeout)
+	t, closeRelay := newTransportOpts(send, 100*time.Millisecond, seed%2 == 1)
 	suites := []ipmi.CipherSuite{ipmi.CipherSuite3, ipmi.CipherSuite17, {AuthenticationAlgorithm: 2, IntegrityAlgorithm: 2, ConfidentialityAlgorithm: 1}}
 	if guid, err := t.GetSystemGUID(ctx); err == nil {
 		out = append(out, fmt.Sprintf("guid=%x", guid))
